@@ -99,7 +99,26 @@ def run_history(cell):
     if cell.get('pools'):
         kw['store_pool'] = 2
         kw['relay_pool'] = 1
+    if cell.get('rev_map'):
+        # the per-recipient mapping lists the recipients in another order
+        # than envelope.recipients (a relay that groups by destination)
+        relay.mapping_order = 'reversed'
     queue = Queue(store, relay, backoff=backoff, bounce_factory=factory, **kw)
+    if cell.get('split'):
+        # a splitting queue policy, and a store whose writes take an
+        # arbitrary number of scheduler turns (uneven latency)
+        from slimta.policy.split import RecipientSplit
+        queue.add_policy(RecipientSplit())
+        orig_write = store.write
+        nwrites = [0]
+
+        def write(envelope, timestamp):
+            k = nwrites[0]
+            nwrites[0] += 1
+            for _ in range(api.choice('wlat%d' % k, 2)):
+                qc.yield_point()
+            return orig_write(envelope, timestamp)
+        store.write = write
     enq = []
     if recq is None:
         orig = queue.enqueue
@@ -125,13 +144,13 @@ def run_history(cell):
     bounces = list(recq.got) if recq is not None else \
         [e for e in enq if e is not env]
     return {'relay': relay, 'factory_calls': factory_calls,
-            'bounces': bounces, 'stored': stored, 'qid': qid,
+            'bounces': bounces, 'stored': stored, 'qid': qid, 'result': res,
             'errors': list(qc.ERRORS), 'sender': sender, 'env': env,
             'backoff_log': backoff_log, 'queue': queue,
             'accepted': not isinstance(qid, BaseException)}
 
 
-def reference(h, rcpts):
+def reference(h, rcpts, calls=None):
     """Final disposition each recipient must have, and the bounce groups the
     history calls for, derived from the relay script alone.
 
@@ -141,10 +160,12 @@ def reference(h, rcpts):
     groups = []
     granted = {}
     for s, rc, attempts, ok in h['backoff_log']:
-        if s != '':
+        if s != '' and (calls is None or rc == list(rcpts)):
             granted[attempts] = ok
     n_fail = 0
-    for c in [c for c in h['relay'].calls if c['tag'] == 'm1']:
+    if calls is None:
+        calls = [c for c in h['relay'].calls if c['tag'] == 'm1']
+    for c in calls:
         kind, detail = c['outcome']
         cur = c['rcpts']
         temps = []
